@@ -50,18 +50,27 @@ Consumed == IF FirstEnd = 0 THEN 0 - 1
 RECURSIVE Depth(_, _)
 Depth(q, d) == IF Len(q) = 0 THEN d
    ELSE Depth(Tail(q), IF Head(q) \in {"l", "d"} THEN d + 1 ELSE IF Head(q) = "e" /\ d > 0 THEN d - 1 ELSE d)
-\* index of the first token of a hazard kind, 0 if none
-FirstIdx(P(_)) == LET S == { i \in 1 .. Len(st.toks) : P(i) } IN IF S = {} THEN 0 ELSE CHOOSE i \in S : \A j \in S : i <= j
-NonStrKey(i) == i > 1 /\ st.toks[i - 1] = "d" /\ ~IsStr(st.toks[i]) /\ st.toks[i] # "e"
-Huge(i) == st.toks[i] = "huge"
-SpanShape == LET k == FirstIdx(NonStrKey)  h == FirstIdx(Huge) IN
-   IF k = 0 /\ h = 0 THEN "plain" ELSE IF h = 0 \/ (k # 0 /\ k < h) THEN "dict-nonstring-key" ELSE "huge-length"
+\* does decoding the value that starts at token i run into a dictionary key that is not a string?
+KeyOk(t) == IsStr(t) \/ t = "huge"
+RECURSIVE ValBad(_, _), ListBad(_, _), DictBad(_, _)
+ValBad(q, i) == IF i > Len(q) THEN FALSE
+   ELSE IF q[i] = "l" THEN ListBad(q, i + 1) ELSE IF q[i] = "d" THEN DictBad(q, i + 1) ELSE FALSE
+ListBad(q, i) == IF i > Len(q) \/ q[i] = "e" THEN FALSE
+   ELSE ValBad(q, i) \/ (ValEnd(q, i) # 0 /\ ListBad(q, ValEnd(q, i)))
+DictBad(q, i) == IF i > Len(q) \/ q[i] = "e" THEN FALSE
+   ELSE IF ~KeyOk(q[i]) THEN TRUE
+   ELSE ValBad(q, i + 1) \/ (ValEnd(q, i + 1) # 0 /\ DictBad(q, ValEnd(q, i + 1)))
+SpanShape == IF Len(st.toks) > 0 /\ st.toks[1] = "huge" THEN "huge-length"
+             ELSE IF ValBad(st.toks, 1) THEN "dict-nonstring-key"
+             ELSE IF \E i \in 1 .. Len(st.toks) : st.toks[i] = "huge" THEN "huge-length" ELSE "plain"
 OobShape == IF Len(B) > 0 /\ B[Len(B)] = 101 /\ Consumed < 0 /\ Len(st.toks) > 0 /\ st.toks[1] \in {"l", "d"}
             THEN "container-open-after-value" ELSE IF st.cut > 0 THEN "cut" ELSE "plain"
 
 \* ---- checked on the spec
 ConsumedInside == Consumed <= Len(B)
 WholeDoc == FirstEnd = Len(st.toks) + 1 /\ st.cut = 0 => Consumed = Len(B) /\ Depth(st.toks, 0) = 0
+\* a value whose decoding meets a bad key is never a complete value for the reference
+BadKeyNeverComplete == ValBad(st.toks, 1) /\ (\A i \in 1 .. Len(st.toks) : st.toks[i] # "huge") => FirstEnd = 0
 OpenNeverComplete == Len(st.toks) > 0 /\ st.toks[1] \in {"l", "d"} /\ Depth(st.toks, 0) > 0 /\ FirstEnd # 0
                         => FirstEnd <= Len(st.toks)
 
